@@ -66,7 +66,7 @@ pub fn check(c: &Case, ctx: &mut Ctx) -> Result<(), Failure> {
         };
         let x = bar.c;
         let t = i + 1;
-        let tol = tau(t) * big;
+        let tol = tau(t) * big + tol_floor(n);
         // (field, got, expected, tolerance)
         let mut cmp: Vec<(&'static str, f64, f64, f64)> = Vec::with_capacity(3);
         match k {
